@@ -21,7 +21,6 @@ func init() {
 	evals["sstate"] = c16cEvalSstate
 	evals["sstatem"] = c16cEvalSstatem
 	// stand-alone entry for development (`h gen C16codec <seed> <tier>`); the C16 generator calls c16cGen itself
-	gens["C16codec"] = c16cGen
 }
 
 func c16cCertsField(certs [][]byte) string {
@@ -69,9 +68,11 @@ func c16cEvalSstate(args []string) string {
 	if !ok {
 		return "bad-op"
 	}
-	in := append([]byte{}, b...)
+	// capacity = length: a read past the end of the input panics instead of seeing stale bytes of the buffer
+	b = b[:len(b):len(b)]
+	in := append(make([]byte, 0, len(b)), b...)
 	accepted, vers, suite, master, certs, again := gmtls.VerifSessionStateParse(b)
-	if accepted != gmtls.VerifSessionStateUnmarshal(in) {
+	if accepted != gmtls.VerifSessionStateUnmarshal(in[:len(in):len(in)]) {
 		return "ORACLE-FAIL:verdict-not-deterministic"
 	}
 	if !accepted {
@@ -127,7 +128,7 @@ func c16cGen(r *rng, tier string, emit func(string)) {
 	thorough := tier == "thorough"
 	scale := 1
 	if thorough {
-		scale = 14
+		scale = 15
 	}
 	versions := []int{0x0101, 0x0303, 0x0302, 0x0301, 0, 0xffff, 0x0100}
 	suites := []int{0xe013, 0xe053, 0xc02f, 0x009c, 0x002f, 0, 0xffff}
